@@ -466,3 +466,83 @@ func (vt *Model) resize(w int, h int)
   ensures C05_size: H(vt) == h && Wd(vt) == w
   ensures C06_rowsdistinct: RowsDistinct(vt)
 @*/
+
+/*@
+-- ------------------------------------------------------------------ forwarding input to the child (C13)
+-- What is written for a mouse event, stated over the decoded structure of the returned sequence (seqkind 1 = CSI,
+-- seqlead the private marker, seqparam the numeric parameters, seqfinal the final byte). The host-side decoder
+-- (parseMouseEvent, C03) reads exactly these fields, so the two contracts compose into the round trip:
+-- decoded button = p0 & 195, motion = p0 & 32, press/release by the final byte, position = (p1-1, p2-1).
+pred MouseOff(vt *Model) = !vt.mode.mouseButtons && !vt.mode.mouseDrag && !vt.mode.mouseMotion && !vt.mode.mouseSGR
+-- the button values the protocol can carry: low two bits and bits 6-7
+pred ButtonOK(b vaxis.MouseButton) = 0 <= b && b < 256 && (b / 4) % 16 == 0
+
+func (vt *Model) handleMouse(msg vaxis.Mouse) string
+  requires vt.pty != nil
+  -- nothing is written for mouse events the child has not enabled
+  ensures C13_off:    MouseOff(vt) ==> len(result) == 0
+  ensures C13_nomotion: (!MouseOff(vt) && msg.EventType == vaxis.EventMotion && (!vt.mode.mouseDrag || (!vt.mode.mouseMotion && msg.Button == vaxis.MouseNoButton))) ==> len(result) == 0
+  -- SGR mode: CSI < b ; col+1 ; row+1 M|m with b = button (+32 for motion)
+  ensures C13_sgr: (!MouseOff(vt) && vt.mode.mouseSGR && !(msg.EventType == vaxis.EventMotion && (!vt.mode.mouseDrag || (!vt.mode.mouseMotion && msg.Button == vaxis.MouseNoButton)))
+                    && (msg.EventType == vaxis.EventMotion || msg.EventType == vaxis.EventPress || msg.EventType == vaxis.EventRelease)) ==>
+        (seqkind(result) == 1 && seqlead(result) == 60 && seqn(result) == 3
+         && seqparam(result, 0) == msg.Button + (msg.EventType == vaxis.EventMotion ? 32 : 0)
+         && seqparam(result, 1) == msg.Col + 1 && seqparam(result, 2) == msg.Row + 1
+         && seqfinal(result) == (msg.EventType == vaxis.EventRelease ? 109 : 77))
+  -- handleMouse itself writes only the alternate-scroll translation: three cursor-up/down keys per wheel step
+  -- while the child has no mouse mode but asked for alternate scroll on the alternate screen
+  ensures C13_quiet: !(MouseOff(vt) && vt.mode.altScroll && vt.mode.smcup && (msg.Button == vaxis.MouseWheelUp || msg.Button == vaxis.MouseWheelDown)) ==> loglen("pty") == old(loglen("pty"))
+  ensures C13_wheel: (MouseOff(vt) && vt.mode.altScroll && vt.mode.smcup && (msg.Button == vaxis.MouseWheelUp || msg.Button == vaxis.MouseWheelDown)) ==>
+        (loglen("pty") == old(loglen("pty")) + 3
+         && (forall i in old(loglen("pty"))..loglen("pty"): (seqkind(unbox(logat("pty", i), "string")) == 2
+              && seqfinal(unbox(logat("pty", i), "string")) == (msg.Button == vaxis.MouseWheelUp ? 65 : 66))))
+  -- round trip through the host decoder's reading of those fields, for every button the protocol can carry
+  lemma C13_roundtrip: forall b in 0..256: ((b / 4) % 16 == 0) ==>
+        ((b % 4) + ((b / 64) % 4) * 64 == b && ((b + 32) % 4) + (((b + 32) / 64) % 4) * 64 == b
+         && (b / 32) % 2 == 0 && ((b + 32) / 32) % 2 == 1)
+@*/
+
+/*@
+-- keys: for every special key of the tables and every combination of Shift/Alt/Ctrl, the sequence written decodes
+-- (HostKey/HostMods: the host decoder's contract, C09) to the same key and modifiers; the child's cursor-key mode
+-- selects SS3 or CSI encoding
+pred XM(key vaxis.Key) int = key.Modifiers % 8
+pred IsFKey(k rune) = vaxis.KeyF01 <= k && k <= vaxis.KeyF12
+pred IsCursorKey(k rune) = k == vaxis.KeyUp || k == vaxis.KeyDown || k == vaxis.KeyRight || k == vaxis.KeyLeft || k == vaxis.KeyEnd || k == vaxis.KeyHome
+pred IsEditKey(k rune) = k == vaxis.KeyInsert || k == vaxis.KeyDelete || k == vaxis.KeyPgUp || k == vaxis.KeyPgDown
+
+func encodeXterm(key vaxis.Key, deckpam bool, decckm bool) string
+  requires mods: 0 <= key.Modifiers && key.Modifiers < 256
+  ensures C13_fkeys:  (XM(key) == 0 && IsFKey(key.Keycode)) ==> (HostKey(result) == key.Keycode && HostMods(result) == 0)
+  ensures C13_cursor: (XM(key) == 0 && IsCursorKey(key.Keycode)) ==> (HostKey(result) == key.Keycode && HostMods(result) == 0 && seqkind(result) == (decckm ? 2 : 1))
+  ensures C13_edit:   (XM(key) == 0 && IsEditKey(key.Keycode)) ==> (HostKey(result) == key.Keycode && HostMods(result) == 0)
+  ensures C13_chord:  (XM(key) != 0 && (IsFKey(key.Keycode) || IsCursorKey(key.Keycode) || IsEditKey(key.Keycode))) ==>
+        (HostKey(result) == key.Keycode && HostMods(result) == XM(key))
+@*/
+
+/*@
+-- what reaches the child: every string handed to the pty is recorded in the ghost log "pty"
+extern func (*os.File).WriteString(f, s)
+  logs pty: s
+
+-- Update forwards one host event: a key as its xterm encoding under the child's cursor-key and keypad modes, paste
+-- brackets only when the child enabled bracketed paste, a mouse event as handleMouse says; exactly one write or none
+func (vt *Model) Update(msg vaxis.Event)
+  requires vt.pty != nil && vt.timer != nil
+  requires key: typeis(msg, "vaxis.Key") ==> (0 <= unbox(msg, "vaxis.Key").Modifiers && unbox(msg, "vaxis.Key").Modifiers < 256)
+  ensures C13_paste_off: ((typeis(msg, "vaxis.PasteStartEvent") || typeis(msg, "vaxis.PasteEndEvent")) && !vt.mode.paste) ==> loglen("pty") == old(loglen("pty"))
+  ensures C13_paste_on:  (typeis(msg, "vaxis.PasteStartEvent") && vt.mode.paste) ==>
+        (loglen("pty") == old(loglen("pty")) + 1 && seqkind(unbox(logat("pty", old(loglen("pty"))), "string")) == 1
+         && seqparam(unbox(logat("pty", old(loglen("pty"))), "string"), 0) == 200 && seqfinal(unbox(logat("pty", old(loglen("pty"))), "string")) == 126)
+  ensures C13_paste_end: (typeis(msg, "vaxis.PasteEndEvent") && vt.mode.paste) ==>
+        (loglen("pty") == old(loglen("pty")) + 1 && seqkind(unbox(logat("pty", old(loglen("pty"))), "string")) == 1
+         && seqparam(unbox(logat("pty", old(loglen("pty"))), "string"), 0) == 201 && seqfinal(unbox(logat("pty", old(loglen("pty"))), "string")) == 126)
+  -- a special key arrives as a sequence the host decoder reads back as the same key and modifiers
+  ensures C13_key: (typeis(msg, "vaxis.Key") && (IsFKey(unbox(msg, "vaxis.Key").Keycode) || IsCursorKey(unbox(msg, "vaxis.Key").Keycode) || IsEditKey(unbox(msg, "vaxis.Key").Keycode))) ==>
+        (loglen("pty") == old(loglen("pty")) + 1
+         && HostKey(unbox(logat("pty", old(loglen("pty"))), "string")) == unbox(msg, "vaxis.Key").Keycode
+         && HostMods(unbox(logat("pty", old(loglen("pty"))), "string")) == XM(unbox(msg, "vaxis.Key")))
+  -- nothing (an empty string) is written for a mouse event while the child has no mouse mode enabled
+  ensures C13_mouse_off: (typeis(msg, "vaxis.Mouse") && MouseOff(vt) && !(vt.mode.altScroll && vt.mode.smcup)) ==>
+        (loglen("pty") == old(loglen("pty")) + 1 && len(unbox(logat("pty", old(loglen("pty"))), "string")) == 0)
+@*/
